@@ -39,7 +39,9 @@ def init_worker(ctx):
 @st.composite
 def case_strategy(draw):
     n = draw(st.integers(1, 5))
-    snames = draw(st.lists(gen_ir.names.map(lambda s: s.capitalize()), min_size=n, max_size=n, unique=True))
+    # symbol names: CamelCase-ish and plain lower-case ones (functions are usually lower-case, often very short);
+    # `infer` itself is the tool's own keyword for "no explicit name" and is left out
+    snames = draw(st.lists(st.one_of(gen_ir.names.map(lambda s: s.capitalize()), gen_ir.names.filter(lambda s: s != "infer"), st.sampled_from(["f", "g", "e", "fn", "run", "inf", "er", "main_"])), min_size=n, max_size=n, unique_by=str.lower))
     kind = draw(st.sampled_from(["class", "function", "argparse", "mixed", "json", "dir"]))
     if kind == "json":
         snames = snames[:1]  # one JSON-schema file is one entry of the mapping, named after the file
@@ -142,11 +144,11 @@ def used_typing_names(mod):
 def _json_renamed(case):
     """P17d (the SQLAlchemy emitters name the class after the IR, not after the mapping key) also shows with the
     identity template when the IR name differs from the key: a JSON-schema file's IR is named
-    pascal_to_upper_camelcase(stem), which upper-cases a letter that follows a digit (`Bie1f0` -> `Bie1F0`)"""
+    pascal_to_upper_camelcase(stem), which upper-cases the first letter and a letter that follows a digit / underscore (`d0` -> `D0`, `Bie1f0` -> `Bie1F0`)"""
     import re
 
     kinds = case.get("kinds_in") or [case["in"]] * len(case["names"])
-    return any(k == "json" and re.search(r"[0-9_][a-z]", n) for n, k in zip(case["names"], kinds))
+    return any(k == "json" and (n[0].islower() or re.search(r"[0-9_][a-z]", n)) for n, k in zip(case["names"], kinds))
 
 
 def view(ir):
